@@ -12,6 +12,7 @@ import (
 	"strings"
 	"sync"
 	"sync/atomic"
+	"syscall"
 	"time"
 
 	"verif/checks"
@@ -80,6 +81,7 @@ type childRun struct {
 	raceText string
 	wall     float64
 	skipped  bool
+	hung     bool
 }
 
 type cpuAlloc struct {
@@ -161,6 +163,29 @@ func childParams(spec checks.Child, cpus int) map[string]string {
 // remaining children (which would each run into the same watchdog) are skipped or killed.
 var abortAll int32
 
+// caseLimit is the bounded-progress limit of one case for the check being driven.
+var caseLimit time.Duration
+
+func lastCaseInFlight(path string) string {
+	f, err := os.Open(path)
+	if err != nil {
+		return ""
+	}
+	defer f.Close()
+	sc := bufio.NewScanner(f)
+	sc.Buffer(make([]byte, 1<<20), 1<<20)
+	cur := ""
+	for sc.Scan() {
+		l := sc.Text()
+		if strings.HasPrefix(l, "BEGIN ") {
+			cur = l[6:]
+		} else if strings.HasPrefix(l, "END ") {
+			cur = ""
+		}
+	}
+	return cur
+}
+
 func runChild(r *childRun, bin, id, tier string, seed int64, only string, inherit bool) {
 	if atomic.LoadInt32(&abortAll) != 0 {
 		r.skipped = true
@@ -206,14 +231,34 @@ func runChild(r *childRun, bin, id, tier string, seed int64, only string, inheri
 	err := cmd.Start()
 	if err == nil {
 		done := make(chan struct{})
+		progressPath := filepath.Join(r.dir, fmt.Sprintf("progress-%d.log", r.spec.Shard))
 		go func() {
+			// Bounded progress is watched from OUTSIDE the child (a sleeping watchdog goroutine inside it would switch
+			// off the Go runtime's "all goroutines are asleep" deadlock detector): when the progress log shows the same
+			// case in flight for longer than the limit, the child gets SIGQUIT (goroutine dump) and the case is a hang.
+			var lastSize int64 = -1
+			lastChange := time.Now()
 			for {
 				select {
 				case <-done:
 					return
 				case <-time.After(time.Second):
-					if atomic.LoadInt32(&abortAll) != 0 && cmd.Process != nil {
-						r.skipped = true
+				}
+				if atomic.LoadInt32(&abortAll) != 0 && cmd.Process != nil {
+					r.skipped = true
+					cmd.Process.Kill()
+					return
+				}
+				if caseLimit <= 0 {
+					continue
+				}
+				if st, err := os.Stat(progressPath); err == nil {
+					if st.Size() != lastSize {
+						lastSize, lastChange = st.Size(), time.Now()
+					} else if time.Since(lastChange) > caseLimit && lastCaseInFlight(progressPath) != "" {
+						r.hung = true
+						cmd.Process.Signal(syscall.SIGQUIT)
+						time.Sleep(3 * time.Second)
 						cmd.Process.Kill()
 						return
 					}
@@ -231,7 +276,7 @@ func runChild(r *childRun, bin, id, tier string, seed int64, only string, inheri
 			r.exit = -1
 		}
 	}
-	r.timedOut = r.exit == 124 || r.exit == 137 || r.exit == 3
+	r.timedOut = r.exit == 124 || r.exit == 137 || r.hung
 	if b, err := os.ReadFile(filepath.Join(r.dir, fmt.Sprintf("result-%d.json", r.spec.Shard))); err == nil {
 		var res mon.Result
 		if json.Unmarshal(b, &res) == nil && res.Done {
@@ -360,6 +405,21 @@ func drive(id, tier string) int {
 		return 2
 	}
 
+	// bounded progress: checks whose property promises termination use a tight (still generous) per-case limit, all
+	// others a very generous one - a monitored call that has not returned after it is reported as a hang everywhere
+	caseLimit = 600 * time.Second
+	if ck.HangIsViolation {
+		caseLimit = 150 * time.Second
+	}
+	if tier == "thorough" {
+		caseLimit = 2400 * time.Second
+		if ck.HangIsViolation {
+			caseLimit = 1200 * time.Second
+		}
+	}
+	if v := ck.CaseLimitS[tier]; v > 0 {
+		caseLimit = time.Duration(v) * time.Second
+	}
 	plan := ck.Plan(tier)
 	bins := map[string]string{}
 	for _, ch := range plan {
@@ -462,7 +522,7 @@ func drive(id, tier string) int {
 			case r.inflight != "" && deadlock:
 				viols = append(viols, mk(mon.Violation{Property: id, Sig: "deadlock", Case: r.inflight,
 					Msg: "Go runtime deadlock detector fired inside a monitored call", Detail: map[string]string{"stdio": r.stdio}, Config: childParams(r.spec, len(r.cpus))}))
-			case r.inflight != "" && r.timedOut && (ck.HangIsViolation || r.exit == 3):
+			case r.inflight != "" && r.timedOut && (ck.HangIsViolation || r.hung):
 				viols = append(viols, mk(mon.Violation{Property: id, Sig: "hang", Case: r.inflight,
 					Msg: "watchdog fired while a monitored call was in flight (bounded-progress violation)", Detail: map[string]string{"stdio": r.stdio}, Config: childParams(r.spec, len(r.cpus))}))
 			case r.inflight != "" && !r.timedOut:
